@@ -271,6 +271,10 @@ class SqlalchemyRender:
             if t.alias:
                 alias = self.get_alias(t.alias)
                 col = col.label(alias)
+            else:
+                # otherwise sqlalchemy labels CAST(a AS …) with the column's own name `a`,
+                # and ORDER BY a / GROUP BY a of the statement then refer to the cast value
+                col = col.label(None)
         elif isinstance(t, ast.Parameter):
             col = sa.column(t.value, is_literal=True)
             if t.alias:
